@@ -122,7 +122,7 @@ def opt_flow(P, b, bb, depth=0):
         if l == 0:
             # returned from a closure: follow into the combinator that runs the closure
             if b.is_closure:
-                parent = P.bodies.get(b.parent)
+                parent = (P.closure_parents(b) or [None])[0]
                 hit = False
                 if parent is not None and depth < 3:
                     for pbb, pt in parent.calls():
